@@ -17,6 +17,15 @@ fn known_driver(rng: &mut Rng, timeout: Option<u64>) -> DriverCfg {
 /// A frame the unit's driver accepts as a sign of life (or a measurement).
 fn frame_from_unit(rng: &mut Rng, d: &DriverCfg) -> [u8; 16] {
     let da = d.da;
+    // any parameter group any driver inspects, from this unit's address (whether its own driver accepts it is for the
+    // model to say)
+    if rng.chance(1, 4) {
+        let mut data = [0u8; 8];
+        for b in data.iter_mut() {
+            *b = match rng.below(4) { 0 => 0xFF, 1 => 0, _ => rng.byte() };
+        }
+        return raw_of(make_id(*rng.pick(&[3u8, 6]), *rng.pick(&crate::drv::PGNS), *rng.pick(&[0x27u8, 0xFF]), da), &data);
+    }
     match d.product.as_str() {
         "hcu" | "vcu" => {
             if rng.chance(1, 2) {
@@ -105,9 +114,9 @@ fn default_name() -> [u32; 7] {
 pub fn run_c10(out: &mut Out, tier: &str, rng: &mut Rng) {
     let thorough = tier == "thorough";
     out.rule = "real NetworkAuthority (receive / tick / command clones) on the emulated bus; driver sets of 1..4 known units with timeouts absent / 3600000 ms (never expiring) / 0 ms (already expired) in the quick tier, plus 1500 ms with real 2000 ms silences in the thorough tier; random histories of up to 60 events over {frame accepted from a unit, frame from another unit, cycle}; the frames the tick clone sends loop back to the receive clone as on a real bus and appear as explicit F: events. Observed: ModuleStatus objects on the signal channel per cycle. Non-trivial = a history with at least one accepted frame and ten cycles".into();
-    let n = if thorough { 400 } else { 60 };
+    let n = if thorough { 1600 } else { 240 };
     for i in 0..n {
-        let timed = thorough && i % 8 == 0;
+        let timed = thorough && i % 32 == 0;
         let nd = 1 + rng.below(4) as usize;
         let mut drivers = vec![];
         for _ in 0..nd {
@@ -145,8 +154,12 @@ pub fn run_c10(out: &mut Out, tier: &str, rng: &mut Rng) {
                     out.count(&format!("event frame from unit ({})", d.product));
                 }
                 3 => {
-                    // a frame from an address nobody is configured for
-                    let raw = raw_of(make_id(6, *rng.pick(&[65288u32, 61444, 65450, 65451, 60928]), 0xFF, 0x99), &[0x14, 0xFF, 1, 0xFF, 1, 0, 0, 0]);
+                    // what a configured unit sends (any parameter group a driver inspects), from an address nobody is
+                    // configured for, from the daemon's own address, from a neighbouring address or from ANOTHER configured unit
+                    let d = rng.pick(&drivers).clone();
+                    let mut raw = frame_from_unit(rng, &d);
+                    let other = rng.pick(&drivers).da;
+                    raw[0] = *rng.pick(&[0x99u8, 0x17, 0x27, d.da.wrapping_add(1), other]);
                     h.frame(&raw);
                     out.count("event frame from another unit");
                 }
@@ -171,11 +184,48 @@ pub fn run_c10(out: &mut Out, tier: &str, rng: &mut Rng) {
     }
 }
 
+/// "Healthy only if a message FROM THE UNIT has been accepted", systematically: for every known unit kind alone on the bus
+/// (never-expiring timeout, never heard), every parameter group any driver inspects arriving from an address that is not
+/// the unit's, each followed by a cycle; then the same groups from the unit itself.  One wrongly accepted group shows as
+/// a Healthy status the model does not publish.
+pub fn run_c10_foreign(out: &mut Out, _tier: &str, rng: &mut Rng) {
+    let kinds: [(&str, &str, u8); 7] = [("laixer", "hcu", 0x4A), ("laixer", "vcu", 0x12), ("volvo", "d7e", 0x00), ("kübler", "inclinometer", 0x7A), ("kübler", "encoder", 0x6A), ("j1939", "ecu", 0x3C), ("j1939", "ecm", 0x01)];
+    for (v, p, da) in kinds {
+        for src in [0x99u8, 0x17, 0x27, da.wrapping_add(1)] {
+            for timeout in [Some(3_600_000u64), None] {
+                let cfg = NetCfg { address: 0x27, name: default_name(), drivers: vec![DriverCfg { da, sa: None, timeout, vendor: v.into(), product: p.into() }] };
+                let mut rig = match Rig::new(&cfg) {
+                    Ok(r) => r,
+                    Err(()) => continue,
+                };
+                let mut h = Hist { rig: &mut rig, ins: vec![], outs: vec![] };
+                h.setup();
+                h.cycle();
+                for pgn in crate::drv::PGNS {
+                    let mut data = [0u8; 8];
+                    for b in data.iter_mut() {
+                        *b = match rng.below(4) { 0 => 0xFF, 1 => 0, _ => rng.byte() };
+                    }
+                    h.frame(&raw_of(make_id(6, pgn, *rng.pick(&[0x27u8, 0xFF]), src), &data));
+                    h.cycle();
+                }
+                for pgn in crate::drv::PGNS {
+                    h.frame(&raw_of(make_id(6, pgn, 0xFF, da), &[0x14, 0xFF, 1, 0xFF, 1, 0, 0, 0]));
+                    h.cycle();
+                }
+                let (ins, outs) = (h.ins.join(" "), h.outs.join(" "));
+                out.case(&format!("auth {} {}", cfg.tok(), ins), &outs, true);
+                out.count(&format!("every inspected group from a foreign address, unit kind {}", p));
+            }
+        }
+    }
+}
+
 /// C01 at the authority level: the latest motion command governs what every hydraulic unit is sent, whatever the
 /// bus traffic and whether or not the unit is currently heard (timeouts absent / expired / far away).
 pub fn run_c01_auth(out: &mut Out, tier: &str, rng: &mut Rng) {
     let thorough = tier == "thorough";
-    for rep in 0..(if thorough { 300 } else { 40 }) {
+    for rep in 0..(if thorough { 1200 } else { 160 }) {
         let mut drivers = vec![];
         let nh = 1 + rng.below(2);
         for k in 0..nh {
@@ -236,7 +286,7 @@ pub fn run_c01_auth(out: &mut Out, tier: &str, rng: &mut Rng) {
 /// Used by the driver-level properties (C02, C08, C11, C12) so that the path through the authority is tied as well.
 pub fn run_generic_auth(out: &mut Out, tier: &str, rng: &mut Rng, what: &str) {
     let thorough = tier == "thorough";
-    for _ in 0..(if thorough { 150 } else { 24 }) {
+    for _ in 0..(if thorough { 600 } else { 96 }) {
         let mut drivers: Vec<DriverCfg> = vec![];
         for _ in 0..(1 + rng.below(4)) {
             let t = *rng.pick(&[None, Some(0u64), Some(3_600_000)]);
@@ -321,7 +371,7 @@ pub fn run_c06_auth(out: &mut Out, tier: &str, rng: &mut Rng) {
             DriverCfg { da: 0x6B, sa: None, timeout: None, vendor: "kübler".into(), product: "encoder".into() },
         ],
     };
-    for rep in 0..(if thorough { 200 } else { 30 }) {
+    for rep in 0..(if thorough { 800 } else { 120 }) {
         let mut rig = Rig::new(&cfg).expect("authority");
         let mut h = Hist { rig: &mut rig, ins: vec![], outs: vec![] };
         h.setup();
@@ -369,10 +419,92 @@ pub fn run_c06_auth(out: &mut Out, tier: &str, rng: &mut Rng) {
     }
 }
 
+/// Requests (PGN 59904) to the daemon for EVERY parameter group number: the responder of NetworkAuthority::recv looks at the
+/// requested number, so the sweep is over all of them (quick: all 65536 of data page 0; thorough: all 2^18), to the
+/// daemon's own address, to the broadcast address and to another node, each followed now and then by a cycle so that
+/// "keeps ticking" is observed too.
+pub fn run_c06_requests(out: &mut Out, tier: &str, rng: &mut Rng) {
+    let thorough = tier == "thorough";
+    let cfg = NetCfg {
+        address: 0x27,
+        name: default_name(),
+        drivers: vec![DriverCfg { da: 0x4A, sa: None, timeout: None, vendor: "laixer".into(), product: "hcu".into() }],
+    };
+    let top: u32 = if thorough { 0x4_0000 } else { 0x1_0000 };
+    let chunk = 1024u32;
+    let mut base = 0u32;
+    while base < top {
+        let mut rig = Rig::new(&cfg).expect("authority");
+        let mut h = Hist { rig: &mut rig, ins: vec![], outs: vec![] };
+        h.setup();
+        h.cycle();
+        let dest = match (base / chunk) % 8 { 6 => 0xFFu8, 7 => 0x4A, _ => 0x27 };
+        for req in base..base + chunk {
+            let tail = if req % 3 == 0 { 0x00u8 } else { 0xFF };
+            h.frame(&raw_of(make_id(6, 59904, dest, *rng.pick(&[0x10u8, 0x4A, 0xFE])), &[(req & 0xFF) as u8, (req >> 8) as u8, (req >> 16) as u8, tail, tail, tail, tail, tail]));
+        }
+        h.cycle();
+        h.motion(&Motion::StopAll);
+        let (ins, outs) = (h.ins.join(" "), h.outs.join(" "));
+        out.case(&format!("auth {} {}", cfg.tok(), ins), &outs, true);
+        out.count(&format!("request sweep chunk to {:#04x}", dest));
+        base += chunk;
+    }
+    run_request_pages(out, tier, rng);
+}
+
+/// Requests to the own address at a coarser grain but over ALL data pages and third-byte values: every PDU2 number and every
+/// PDU1 format on pages 0..3; the served groups (and neighbours) with every value of the third request byte (the bits above
+/// the 18-bit number included); the same cut to 2, 1 and 0 data bytes (0xFF padding takes the place of the missing bytes).
+pub fn run_request_pages(out: &mut Out, _tier: &str, rng: &mut Rng) {
+    let cfg = NetCfg {
+        address: 0x27,
+        name: default_name(),
+        drivers: vec![DriverCfg { da: 0x4A, sa: None, timeout: None, vendor: "laixer".into(), product: "hcu".into() }],
+    };
+    let mut reqs: Vec<(u8, [u8; 3])> = vec![];
+    for dp in 0..4u32 {
+        for pf in 0..=255u32 {
+            let ps_list: Vec<u32> = if pf >= 240 { (0..=255).collect() } else { vec![0] };
+            for ps in ps_list {
+                let req = (dp << 16) | (pf << 8) | ps;
+                reqs.push((3, [(req & 0xFF) as u8, (req >> 8) as u8, (req >> 16) as u8]));
+            }
+        }
+    }
+    for low in [0xEE00u32, 0xFEDA, 0xFEE6, 0xFEEB, 0xEA00, 0xFECA, 0x0000, 0xFFFF] {
+        for third in 0..=255u32 {
+            reqs.push((3, [(low & 0xFF) as u8, (low >> 8) as u8, third as u8]));
+        }
+        for dlc in [2u8, 1, 0] {
+            reqs.push((dlc, [(low & 0xFF) as u8, (low >> 8) as u8, 0]));
+        }
+    }
+    for part in reqs.chunks(2048) {
+        let mut rig = Rig::new(&cfg).expect("authority");
+        let mut h = Hist { rig: &mut rig, ins: vec![], outs: vec![] };
+        h.setup();
+        for (dlc, b) in part {
+            let id = make_id(6, 59904, 0x27, *rng.pick(&[0x10u8, 0x4A])) | 0x8000_0000;
+            let mut data = [0u8; 8];
+            data[..(*dlc as usize).min(3)].copy_from_slice(&b[..(*dlc as usize).min(3)]);
+            if *dlc == 3 {
+                h.frame(&raw_of(id & 0x1FFF_FFFF, &[b[0], b[1], b[2], 0xFF, 0xFF, 0xFF, 0xFF, 0xFF]));
+            } else {
+                h.frame(&crate::bus::Bus::raw(id, *dlc, &data));
+            }
+        }
+        h.cycle();
+        let (ins, outs) = (h.ins.join(" "), h.outs.join(" "));
+        out.case(&format!("auth {} {}", cfg.tok(), ins), &outs, true);
+        out.count("request sweep: pages 0..3, third-byte values and short requests to the own address");
+    }
+}
+
 pub fn run_c16_auth(out: &mut Out, tier: &str, rng: &mut Rng) {
     // teardown of authorities with zero, one or several hydraulic units, at any point of their life
     let thorough = tier == "thorough";
-    for rep in 0..(if thorough { 120 } else { 24 }) {
+    for rep in 0..(if thorough { 480 } else { 96 }) {
         let mut drivers = vec![];
         for k in 0..rng.below(4) {
             // silent units too: a 0 ms timeout has always expired when teardown runs
@@ -418,7 +550,7 @@ pub fn run_c20(out: &mut Out, tier: &str, rng: &mut Rng) {
     out.rule = "real NetworkAuthority on the emulated bus: NAME fields at boundaries (0, max, max+1, random) x own addresses; address claim on setup; request frames for every PGN any driver inspects plus AddressClaimed / SoftwareIdentification / TimeDate / others x destination {own, broadcast, other}; driver lists of 0..6 entries drawn from known and unknown (vendor, product) pairs with and without sa override and timeout (construction incl. the two clones, first-cycle setup requests, status names); the shipped contrib/etc/glonax.conf loaded with the real from_file into the server's Config and brought up on two emulated buses. Non-trivial = all".into();
     // --- NAME fields x addresses
     let bounds: [[u32; 3]; 7] = [[0, 2047, 2048], [0, 31, 32], [0, 7, 8], [0, 255, 128], [0, 127, 255], [0, 15, 16], [0, 7, 9]];
-    let reps = if thorough { 400 } else { 60 };
+    let reps = if thorough { 1200 } else { 180 };
     for i in 0..reps {
         let mut name = default_name();
         for k in 0..7 {
@@ -453,7 +585,7 @@ pub fn run_c20(out: &mut Out, tier: &str, rng: &mut Rng) {
     }
     // --- driver lists from known and unknown pairs
     let unknown = [("laixer", "hcu2"), ("volvo", "d6"), ("kubler", "encoder"), ("", ""), ("j1939", "engine"), ("Laixer", "hcu")];
-    for _ in 0..(if thorough { 500 } else { 80 }) {
+    for _ in 0..(if thorough { 1500 } else { 240 }) {
         let mut drivers = vec![];
         for _ in 0..rng.below(7) {
             if rng.chance(1, 4) {
